@@ -34,6 +34,8 @@ type c13Result struct {
 	Exact    *bool           `json:"verifies_over_own_octets,omitempty"`
 	Whole    *bool           `json:"verifies_over_whole_query,omitempty"`
 	Notes    []string        `json:"notes,omitempty"`
+	// a string that is not one of the eight URIs was read as one of them, consistently: the message verifies
+	Tolerated bool `json:"tolerated_near_miss,omitempty"`
 }
 
 // c13Message decodes the emitted wire form to the message's root element.
@@ -44,6 +46,10 @@ func c13Message(e *spemitEmission, v *spemitVec) (root *etree.Element, rawQuery 
 	}
 	var payload []byte
 	switch {
+	case v.In.Binding == "element":
+		// the bare element as Element() / Bytes() / Deflate() hand it out, serialised at once
+		root, err = spemitParseXML(e.XML)
+		return root, "", err
 	case v.In.Kind == "artifact":
 		// the element as it travels: inside the SOAP envelope, serialised and parsed again
 		doc := etree.NewDocument()
@@ -108,18 +114,27 @@ func c13Reconfigure(s, fresh *saml.ServiceProvider) {
 }
 
 func c13RunCaseOn(existing *saml.ServiceProvider, v *spemitVec, c *spemitConc) c13Result {
-	var res c13Result
-	kb := v.In.Kind + "-" + v.In.Binding
-	mk := fmt.Sprintf("method=%s:key=%s", v.Cfg.Method, v.Cfg.Key)
-	add := func(key, clause string) {
-		res.Findings = append(res.Findings, spemitFinding{Key: key, Clause: clause})
-	}
 	s := spemitSP(v, c)
 	if existing != nil {
 		c13Reconfigure(existing, s)
 		s = existing
 	}
-	e := spemitEmit(s, v, c)
+	return c13Judge(s, v, c, spemitEmit(s, v, c))
+}
+
+// c13Judge judges one emission of the SP s (redirect URL, POST form, SOAP envelope or - binding "element" -
+// the serialised element) against the statement.
+func c13Judge(s *saml.ServiceProvider, v *spemitVec, c *spemitConc, e *spemitEmission) c13Result {
+	var res c13Result
+	kb := v.In.Kind + "-" + v.In.Binding
+	mk := fmt.Sprintf("method=%s:key=%s", v.Cfg.Method, v.Cfg.Key)
+	nearMiss := v.Required.NearMiss
+	if nearMiss {
+		mk = fmt.Sprintf("method=%s:form=%s:key=%s", v.Cfg.Method, v.Cfg.MForm, v.Cfg.Key)
+	}
+	add := func(key, clause string) {
+		res.Findings = append(res.Findings, spemitFinding{Key: key, Clause: clause})
+	}
 	res.Sigform = "none"
 	if e.Panic != "" {
 		res.Outcome, res.Err = "panic", e.Panic
@@ -140,6 +155,13 @@ func c13RunCaseOn(existing *saml.ServiceProvider, v *spemitVec, c *spemitConc) c
 	switch v.Class {
 	case "MustReject":
 		// refused with an error INSTEAD of producing a message
+		if e.Err == nil && e.Produced && nearMiss {
+			// the string is not one of the eight URIs but resembles one, and a message came out.  What the
+			// statement forbids is "an unsigned or unverifiable message": judged below like a signing case;
+			// a message that verifies under the published certificate and names one of the eight URIs comes
+			// from an implementation that normalises the string consistently - drift, not a violation.
+			break
+		}
 		if e.Err == nil || e.Produced {
 			what := "no error"
 			if e.Err != nil {
@@ -160,7 +182,24 @@ func c13RunCaseOn(existing *saml.ServiceProvider, v *spemitVec, c *spemitConc) c
 		return res
 	}
 
-	// MustAccept: signing configured with a fitting method
+	// MustAccept: signing configured with a fitting method (or the message a near-miss string produced)
+	if nearMiss {
+		sub := *v
+		sub.Class, sub.Required.NearMiss = "MustAccept", false
+		r := c13Judge(s, &sub, c, e)
+		r.Tolerated = len(r.Findings) == 0
+		for i, f := range r.Findings {
+			// same slug, near-miss key; the clause says what was configured
+			parts := strings.SplitN(strings.TrimPrefix(f.Key, "C13:"), ":", 3)
+			slug := "unverifiable"
+			if len(parts) >= 2 {
+				slug = parts[1]
+			}
+			r.Findings[i] = spemitFinding{Key: "C13:" + kb + ":near-miss-" + slug + ":" + mk,
+				Clause: fmt.Sprintf("signature method %q is not one of the eight method URIs (it only resembles %q); it was not refused with an error, and the message that came out is unsigned or unverifiable: %s", c.MethodURI, c.MethodBase, f.Clause)}
+		}
+		return r
+	}
 	if e.Err != nil || !e.Produced {
 		add("C13:"+kb+":refuses-valid:"+mk, fmt.Sprintf("supported method %q with a fitting %s key was refused: %v", c.MethodURI, v.Cfg.Key, e.Err))
 		return res
@@ -194,7 +233,7 @@ func c13RunCaseOn(existing *saml.ServiceProvider, v *spemitVec, c *spemitConc) c
 		res.Sigform = "detached"
 		exact := d.ExactErr == nil
 		res.Exact = &exact
-		if d.SigAlg != "" && d.SigAlg != c.MethodURI {
+		if want := c13NamedMethod(c); d.SigAlg != "" && want != "" && d.SigAlg != want {
 			add("C13:"+kb+":sigalg-differs:"+mk, fmt.Sprintf("SigAlg is %q, configured method is %q", d.SigAlg, c.MethodURI))
 		}
 		switch {
@@ -229,7 +268,7 @@ func c13RunCaseOn(existing *saml.ServiceProvider, v *spemitVec, c *spemitConc) c
 		add("C13:"+kb+":signature-unverifiable:"+mk, fmt.Sprintf("the enveloped signature on the emitted %s does not verify under the published certificate: recomputed=%v goxmldsig=%v", root.Tag, merr, derr))
 		return res
 	}
-	if method != c.MethodURI {
+	if want := c13NamedMethod(c); want != "" && method != want {
 		add("C13:"+kb+":sigalg-differs:"+mk, fmt.Sprintf("SignatureMethod is %q, configured method is %q", method, c.MethodURI))
 	}
 	// a logout message sent over the redirect binding carries its signature inside the deflated XML;
@@ -238,6 +277,15 @@ func c13RunCaseOn(existing *saml.ServiceProvider, v *spemitVec, c *spemitConc) c
 		res.Notes = append(res.Notes, "redirect URL carries a Signature parameter as well")
 	}
 	return res
+}
+
+// c13NamedMethod is the URI a verifiable message has to name: the configured one; "" (any of the eight - the
+// verifiers accept no other) when the configured string is not a URI itself and was tolerated.
+func c13NamedMethod(c *spemitConc) string {
+	if c.MethodBase != "" {
+		return ""
+	}
+	return c.MethodURI
 }
 
 func truncate(s string, n int) string {
@@ -486,4 +534,7 @@ func TestC13History(t *testing.T) {
 			rep.Sample(map[string]any{"history": hid})
 		}
 	})
+	// histories of render calls on one MESSAGE value (spec/SPEmitRenderHistory.tla)
+	rep.Rule += "; every sequence of MaxLen render calls (AuthnRequest: Redirect, Post, Element; LogoutRequest: Redirect, Post, Element, Bytes, Deflate; LogoutResponse: Redirect, Post, Element) from spec/SPEmitRenderHistory.tla is replayed on ONE message value built for the POST binding with signing on, for the redirect binding with signing on, and unsigned; every emission is judged like a stateless case of its own binding (enveloped signature still present and verifying, detached signature verifying over the emitted octets)"
+	c13RenderHistories(t, rep)
 }
